@@ -140,6 +140,8 @@ def random_route_set(rng, menu, max_routes=4, max_segs=3):
     for _ in range(rng.randint(1, max_routes)):
         n = rng.randint(1, max_segs)
         segs = [seg_text(rng.choice(menu), j) for j in range(n)]
+        if sum(1 for t, _ in segs if t == "{**}") > 1:
+            continue  # the bind name "**" would be reused along the route
         optional = rng.random() < 0.25
         if not tree.add(segs, optional):
             continue
@@ -218,7 +220,7 @@ def routing_jobs(pid, tier, seed):
         else:
             add(rs, n, "curated")
     menu = SEG_MENU
-    ndraw = {"quick": 20, "thorough": 160}[tier]
+    ndraw = {"quick": 20, "thorough": 90}[tier]
     drawn = 0
     guard = 0
     while drawn < ndraw and guard < 10000:
